@@ -1342,6 +1342,9 @@ def label_cases(tier):
                         datasets=[['tab', {'kinds': ['bin', 'cat'], 'rename': {'y': lab, 'c': lab}}],
                                   ['tab2', {'kinds': [], 'rename': {'b': lab}}]],
                         links=['LinkSame'], groups=[dict(state=['K', 'tab'], label='g')]))
+        # the two inputs of an arithmetic (text) attribute and of a plain arithmetic attribute carry the same label
+        out.append(dict(focus='labels:inputs-share-label=%s' % (lab or 'empty'),
+                        datasets=[['tab', {'kinds': ['par', 'bin'], 'rename': {'x': lab, 'z': lab}}]], groups=[]))
     out.append(dict(focus='labels:empty-collection', datasets=[], groups=[]))
     return out
 
